@@ -3,12 +3,12 @@ CONSTANTS
   Libs = {"A", "B", "C"}
   NT = 2
   Statuses = {"absent", "fwd", "def", "defg"}
-  Statuses2 = {"absent", "defg"}
+  Statuses2 = {"defg"}
   Modes = {"db", "mod"}
   LookupKinds = {"ttn", "tn", "esn"}
   FileBase = 3
   RecordHist = TRUE
-  DumpKinds = {"B"}
+  DumpKinds = {"C", "P", "B"}
 INVARIANT TypeOK
 INVARIANT FilesWellFormed
 INVARIANT UnionOK
